@@ -89,7 +89,6 @@ Definition enc_item (i : logitem) : list Z :=
   | LFrame c => [0; c_this c; c_caller c; c_origin c; c_value c; blen (c_code c); b2z (c_static c); c_depth c]
   | LEnd r => 1 :: enc_fres r
   | LEvent a => [2; a]
-  | LDepthNoCode => [6]
   end.
 Definition enc_log (lg : list logitem) : list Z :=
   Z.of_nat (List.length lg) :: flat_map enc_item lg.
